@@ -80,12 +80,30 @@ def rs_show(rs):
     return "|".join(str(a) if a == b else "%d..=%d" % (a, b) for a, b in rs)
 
 
+def piecewise_eq(a, b, limit=400):
+    """two piecewise-defined terms agree on every cell of the common refinement of their case distinctions (the same
+    function written with a different nesting or grouping of tests)"""
+    from . import loops
+    try:
+        cells = loops.split_cases({0: a, 1: b}, limit=limit)
+    except sym.Undecided:
+        return False
+    return bool(cells) and all(sym.sem_eq(v[0], v[1]) for _c, v in cells)
+
+
 def expect(chk, rule, anchor, got, want, where=None, what="value", key=None):
     okk = sym.sem_eq(got, want)
+    if not okk and isinstance(got, tuple) and isinstance(want, tuple) and (loops_first_case(got) is not None or loops_first_case(want) is not None):
+        okk = piecewise_eq(got, want)
     chk.ob(rule, anchor, okk, ("%s is as specified: %s" % (what, show(want)[:200])) if okk else
            "%s differs from the specification — found: %s ; specified: %s" % (what, show(got)[:600], show(want)[:600]),
            where, key=key or what)
     return okk
+
+
+def loops_first_case(t):
+    from . import loops
+    return loops.first_case(t)
 
 
 def eval_or_blind(chk, ev, rule, path, args=None):
